@@ -68,6 +68,12 @@ func NewBaseJobWorker(ctx context.Context, semSize int64) (*BaseJobWorker, error
 		}
 
 		if err := sem.Acquire(wk.newJobCtx(), 1); err != nil {
+			// NOTE the cause, e.g. the error of the failed job, instead of
+			// context.Canceled
+			if cerr := context.Cause(wk.newJobCtx()); cerr != nil {
+				return errors.WithStack(cerr)
+			}
+
 			return errors.WithStack(err)
 		}
 
